@@ -16,6 +16,18 @@ Theorem C11_bundles : forall now xs tr,
 Proof. exact tcpcl_receiver_bundles. Qed.
 Print Assumptions C11_bundles.
 
+(* Send of a valid bundle: for every accepted history of the Send state machine with honest acknowledgements, if Send
+   returns success then the receiver fed with what was emitted has handed up exactly one byte string, under this
+   transfer id, and it parses completely as the very bundle that was sent. *)
+Theorem C11_send_bundle : forall now b m tid evs st outs,
+  good now b -> 1 <= m ->
+  send_run (send_init (bundle_bytes b) m tid) evs = Some (st, outs) ->
+  forallb (honest_event (segments (bundle_bytes b) m tid)) evs = true ->
+  ss_result st = Some SrOk ->
+  exists bs, rx_delivered outs = [(tid, bs)] /\ dec_bundle now bs = Some (b, []).
+Proof. exact tcpcl_send_bundle. Qed.
+Print Assumptions C11_send_bundle.
+
 (* non-vacuity: one transfer (id 3, segment size 7) carrying a concrete bundle: several segments, one hand-over *)
 Definition tbx : bundle :=
   {| b_pri := {| p_flags := 4; p_crc := 2; p_dst := Dtn [100] [97]; p_src := Ipn 23 42; p_rpt := DtnNone;
